@@ -706,8 +706,15 @@ impl Compiler {
 
         let block_result = self.compile_block(expressions, ctx.with_register(result_register))?;
 
+        // Only skip the implicit return when the block's last expression itself is a `return`.
+        // `last_node_was_return` reflects the last node that was compiled, which can be a `return`
+        // nested in e.g. an `if` without an `else`, where the other path still needs its return.
+        let last_expression_is_return = expressions
+            .last()
+            .is_some_and(|expression| matches!(ctx.node(*expression), Node::Return(_)));
+
         if let Some(block_register) = block_result.register {
-            if !self.frame().last_node_was_return {
+            if !(last_expression_is_return && self.frame().last_node_was_return) {
                 if !is_generator {
                     self.compile_check_output_type(
                         block_register,
